@@ -361,6 +361,24 @@ def step_correspondence(prop, tier, seed, harness, replay=None):
             probs = registry.check_case(prop, c, impl[i], ml, {"mode": mode, "mapping_line": cur_mapping, "stats": stats})
             if probs:
                 failures.append((i, "; ".join(probs), impl[i], ml))
+    if info.get("validate_bytes"):
+        # C09: the independent layout decoder (extracted from Layout.v) on the IMPLEMENTATION's bytes
+        rc0, impl0, _ = results[info.get("modes", ["run"])[0]]
+        vidx, vlines = [], []
+        for i, c in enumerate(cases):
+            if c == "W" and i < len(impl0):
+                wv = kv(impl0[i]).get("w", "")
+                if wv.startswith("x"):
+                    vidx.append(i)
+                    vlines.append("V " + wv)
+        if vlines:
+            vout = run_model("\n".join(vlines) + "\n")
+            bad = 0
+            for i, o in zip(vidx, vout):
+                stats["kinds"]["layout_ok" if o == "ok=1" else "layout_bad"] = stats["kinds"].get("layout_ok" if o == "ok=1" else "layout_bad", 0) + 1
+                if o != "ok=1":
+                    bad += 1
+                    failures.append((i, "the written bytes do not decode under the documented layout (independent decoder layout_ok)", impl0[i][:400], o))
     primary = results[info.get("modes", ["run"])[0]][1]
     return cases, primary, model, failures, stats, time.time() - t0
 
